@@ -565,8 +565,10 @@ pub fn run(ctx: &Ctx) -> Outcome {
         let mut rng = ctx.rng("many_overlapping_subpaths", i);
         let w = rng.int(4, 16) as i32;
         let h = rng.int(4, 16) as i32;
-        let n = *rng.pick(&[100usize, 127, 128, 129, 200, 255, 256, 257, 300]);
-        let same_dir = rng.chance(0.7);
+        // every count comes round within nine cases, in one direction in two of three rounds
+        let counts = [100usize, 127, 128, 129, 200, 255, 256, 257, 300, 511, 512, 513, 768];
+        let n = counts[(i as usize) % if ctx.quick() { 9 } else { counts.len() }];
+        let same_dir = (i / 9) % 3 != 2;
         let mut ops = Vec::new();
         for k in 0..n {
             let inset = if rng.chance(0.5) { 0 } else { (k % 5) as i64 };
@@ -584,12 +586,51 @@ pub fn run(ctx: &Ctx) -> Outcome {
             }
             ops.push(QOp::Close);
         }
-        let c = Case { w, h, ops, evenodd: rng.chance(0.4), aa: rng.chance(0.7) };
+        let c = Case { w, h, ops, evenodd: (i / 27) % 3 == 2, aa: rng.chance(0.7) };
         let mut co = with_target(w, h, |dt| run_one(&c, false, st, dt));
         if want || !co.violations.is_empty() {
             co.desc = Some(J::s(&format!("{} rectangles ({}) on {}x{}, {}", n, if same_dir { "same direction" } else { "alternating directions" }, w, h, if c.evenodd { "EvenOdd" } else { "NonZero" })));
         }
         co
+    });
+    // a comb of many thin bars crossed by a shallow sliver: within a single sample row the sliver's edges overtake
+    // dozens of neighbours in the active edge list, in either direction
+    run_cases(ctx, &mut out, SubSpec { name: "shallow_slivers_over_combs", cases: ctx.n(600, 40_000), exhaustive: false, max_secs: 120. }, |i, want, st| {
+        let mut rng = ctx.rng("shallow_slivers_over_combs", i);
+        let nbars = rng.int(4, 70);
+        let pitch = rng.int(2, 6);
+        let barw = rng.int(1, pitch - 1);
+        let x0 = rng.int(-6, 6);
+        let span = nbars * pitch;
+        let w = ((x0 + span) / 4 + rng.int(-2, 3)).clamp(2, 120) as i32;
+        let h = rng.int(2, 10) as i32;
+        let mut ops = Vec::new();
+        let (top, bot) = (rng.int(-6, 2), 4 * h as i64 + rng.int(-2, 6));
+        for k in 0..nbars {
+            let x = x0 + k * pitch;
+            let lean = rng.int(-1, 1);
+            ops.push(QOp::Move(x, top));
+            ops.push(QOp::Line(x + barw, top));
+            ops.push(QOp::Line(x + barw + lean, bot));
+            ops.push(QOp::Line(x + lean, bot));
+            ops.push(QOp::Close);
+        }
+        for _ in 0..rng.int(1, 2) {
+            let y = rng.int(0, 4 * h as i64 - 1);
+            let (l, r) = (x0 - rng.int(2, 10), x0 + span + rng.int(2, 10));
+            let (ya, yb) = (y, y + rng.int(1, 5));
+            let thick = rng.int(1, 12);
+            // rising to the right or to the left
+            let (a, b) = if rng.chance(0.5) { (l, r) } else { (r, l) };
+            ops.push(QOp::Move(a, ya));
+            ops.push(QOp::Line(b, yb));
+            ops.push(QOp::Line(b, yb + thick));
+            ops.push(QOp::Line(a, ya + thick));
+            ops.push(QOp::Close);
+        }
+        let c = Case { w, h, ops, evenodd: rng.chance(0.5), aa: rng.chance(0.75) };
+        st.add("combs_of_more_than_25_edges", (2 * nbars > 25) as u64);
+        with_target(w, h, |dt| run_one(&c, want, st, dt))
     });
     // surfaces at and beyond the sizes where 16.16 and 16-bit quantities wrap: a small polygon anywhere on them
     run_cases(ctx, &mut out, SubSpec { name: "very_wide_and_very_tall_surfaces", cases: ctx.n(24, 400), exhaustive: false, max_secs: 120. }, |i, want, st| {
